@@ -145,6 +145,9 @@ def finish(prop, tier, seed, obs, t0, checker_cmds, trusted_base, assumptions, e
           "violations": len(violations)}
     os.makedirs(EVID, exist_ok=True)
     json.dump(ev, open(os.path.join(EVID, prop + ".json"), "w"), indent=1)
+    if os.environ.get("VERIF_VERBOSE"):
+        for o in sorted(obs, key=lambda o: o.time):
+            print("  %-10s %8.1fs %-14s %-40s %s" % (o.status, o.time, o.label, o.id, o.detail[:160].replace("\n", " ")))
     for ob, k in known_hits:
         print("KNOWN-FINDING: property=%s %s" % (prop, k.get("what", ob.id)))
     for ob in violations:
